@@ -11,9 +11,14 @@
 //
 //	strict ok  =>  permissive ok  AND  same len(rest)  AND  identical digest.
 //
-// Every candidate difference is re-run in two FRESH processes which return
-// full field dumps; the violation signature is target + class of difference
-// (first differing field path).
+// Every difference is classified and counted by the join itself: the workers
+// stream, with the digest of a struct result, a zero flag and a 32-bit hash per
+// exported top-level field, so the signature (target + kind of difference +
+// first differing field + direction) is known for ALL differences. The
+// representatives with the smallest inputs of each signature are then re-run
+// in FRESH processes (strict twice, permissive once) which return full field
+// dumps: that confirms the difference and yields the witness (first differing
+// field path with both values).
 package main
 
 import (
